@@ -17,7 +17,7 @@ AllowedCodes(kind) ==
   CASE kind = "TooLong" -> {"5"} [] kind = "TooShort" -> {"4"} [] kind = "BadCode" -> {"7"} [] kind = "BadClass" -> {"6"}
     [] kind = "BadDate" -> {"8"} [] kind = "BadTime" -> {"9"} [] kind = "MissingRequired" -> {"1"} [] kind = "NotUsedPresent" -> {"10"}
     [] kind = "TooManyElements" -> {"3"} [] kind = "TooManySubElements" -> {"3"} [] kind = "SyntaxBroken" -> {"2", "10"}
-    [] kind = "UnknownSeg" -> {"1"} [] kind = "MissingRequiredSeg" -> {"3"} [] kind = "SegOverMax" -> {"5"} [] kind = "LoopOverMax" -> {"4"}
+    [] kind = "UnknownSeg" -> {"1"} [] kind = "OutOfPlaceSeg" -> {"1", "2", "7"} [] kind = "MissingRequiredSeg" -> {"3"} [] kind = "SegOverMax" -> {"5"} [] kind = "LoopOverMax" -> {"4"}
     [] OTHER -> {}
 Errs(r) == {r.errors[j] : j \in 1..Len(r.errors)}
 (* an error that localises the fault: right level, matching code, at the injected segment position and element position *)
